@@ -1,4 +1,5 @@
 import MM.Props.C07C18
+import MM.Props.MemoTie
 #print axioms MM.Numeric.C07_fixed_columns
 #print axioms MM.Numeric.C07_fixed_order
 #print axioms MM.Numeric.C07_fixed_equivariant
@@ -7,3 +8,4 @@ import MM.Props.C07C18
 #print axioms MM.Numeric.C07_fixed_order_bundle
 #print axioms MM.Numeric.quantile_nonpos
 #print axioms MM.Numeric.quantile_nonneg
+#print axioms MM.Memo.tie_memoised
